@@ -14,7 +14,7 @@ REQUIRED_COUNTERS = ["real_pauses_judged", "aged_writes_judged"]
 PAUSE = 12.0   # "more than about ten seconds"
 RULE = ("file-backed SqliteStorage with lazy commit. Ground truth: every worker runs one scenario with a REAL "
         "time.sleep(>= 12 s) between the previous operation and an event write (first write after open, burst then "
-        "idle, read then idle, each write kind: insert / bulk / replace / replace_last / delete / upsert) and checks "
+        "idle, read then idle, each write kind: insert / bulk / replace / replace_last / delete / upsert / single insert of an event that carries a live id) and checks "
         "through a second read-only connection that the write is committed when it returns. Reach: the same scenario "
         "and generated trickle/burst/idle schedules (with occasional operations the store refuses midway) under a virtual clock patched into the sqlite module (pauses 0 s "
         ".. 1 year, with mass on whole days and whole days + a few seconds); virtual results count only in a worker whose virtual twin of the real scenario gave the same "
@@ -40,7 +40,10 @@ SCENARIOS = [
     ("delete-missing-after-idle", ["insert"], "delete_missing"),
     ("big-bulk-after-idle", ["insert", "insert"], "bulk", 9),                    # 130 events: a full chunk of 100 and a tail
     ("multi-upsert-after-idle", ["insert", "insert", "insert"], "upsert", 2),    # two rewrites and a fresh event in one call
-    ("other-store-busy", ["insert"], "insert"),     # another store of the process writes / is reopened just before the late write
+    ("other-store-busy", ["insert"], "insert"),
+    ("insert-with-id-after-idle", ["insert", "insert"], "insert_with_id"),       # the single-event form, the event carries a live id
+    ("insert-with-id-after-read", ["insert", "read"], "insert_with_id"),
+    ("bulk-of-100-after-idle", ["insert"], "bulk", 7),     # another store of the process writes / is reopened just before the late write
 ]
 
 
@@ -116,7 +119,7 @@ def _op(kind, rng_pick=0):
 
 
 BULK_SIZES = [3, 1, 2, 3, 5, 30, 51, 100, 101, 130, 250, 3, 3]
-SINGLE_STATEMENT_WRITES = ("insert", "replace", "replace_last", "delete")
+SINGLE_STATEMENT_WRITES = ("insert", "replace", "replace_last", "delete", "insert_with_id")
 
 
 def run_schedule(steps, ctx, clock, sleeper):
@@ -268,7 +271,7 @@ def worker(ctx):
             steps, plan_ = [], []
             two_stores = rng.random() < 0.3
             for i in range(rng.randrange(2, 30)):
-                kind = rng.choice(["insert", "insert", "insert", "bulk", "replace", "replace_last", "delete", "upsert", "read",
+                kind = rng.choice(["insert", "insert", "insert", "bulk", "replace", "replace_last", "delete", "upsert", "read", "insert_with_id",
                                    "delete_missing", "fail:upsert_unbindable", "fail:insert_unserializable", "fail:create_existing",
                                    "fail:bulk_unserializable"])
                 if two_stores and rng.random() < 0.3:
